@@ -172,7 +172,7 @@ func (c *e2eCtx) trackAndJudge(s *scenario, decoys bool, r *rand.Rand) {
 	alias, ip := s.cfg.Alias, s.importPath()
 	in, err := oracle.Scan(s.dir, alias, ip, s.cfg.PkgPath)
 	if err != nil {
-		c.violate("C01", "instrumented tree does not parse: "+err.Error(), rp(nil))
+		c.violate("C01,C02", "instrumented tree does not parse: "+err.Error(), rp(nil))
 		return
 	}
 	if len(in.Calls) > 0 {
